@@ -309,6 +309,8 @@ where
         }
 
         self.entries = 0;
+        self.metrics.memory_usage.decrease(self.usage as _);
+        self.usage = 0;
         if count > 0 {
             self.metrics.memory_entries.decrease(count);
             self.metrics.memory_remove.increase(count);
